@@ -2062,6 +2062,13 @@ func (r Stack) Reveal() Stack {
 reveal is a private method called by [Stack.Reveal].
 */
 func (r *stack) reveal() (err error) {
+	// nothing to reveal in an uninitialized instance (a
+	// zero Stack may be stored as a value like any other,
+	// or be held by a Condition as its expression).
+	if r == nil || !r.isInit() {
+		return
+	}
+
 	// a read-only instance is left exactly as it
 	// is, also when it is reached as a nested
 	// member of the instance being revealed.
@@ -2113,7 +2120,9 @@ func (r *stack) revealDescend(inner Stack, idx int) (err error) {
 		case 1:
 			// descend into inner slice #0
 			child, _, _ := inner.index(0)
-			if assert, ok := child.(Interface); ok {
+			// (a nil pointer to a Stack or Condition satisfies Interface
+			// too, but has nothing to ask: leave such a child alone)
+			if assert, ok := child.(Interface); ok && !(isPtr(typOf(child)) && valOf(child).IsNil()) {
 				if !assert.IsParen() && !inner.IsParen() {
 					err = r.revealSingle(0)
 					updated = child
